@@ -2,6 +2,9 @@
 # Regenerates MANIFEST.json from the table below (single source of truth).
 import json
 CHECKS = {
+ "C05": dict(cat="exploration", technique="runtime monitor: checksum protocol automaton over the loader/locker event log + end-state check with a verifying loader and tampered bytes",
+   text="Every call the real build makes to a verifying scripted loader and to a recording locker is logged; a checker written from the statement (known(u) from the harness's own lockfile and manifests) enforces presentation on every content-bearing call (K1), admission (K2: served bytes hash to the known checksum; a resource tampered on every path never becomes a module), retry discipline (K3), checksummed-redirect rejection (K4), faithful recording exactly once (K5) and no overwrite (K6) across 19 load paths x lockfile states x tampering x BOMs x cached/uncached registry files x prefer_cached.",
+   note="prefer_cached existence probes are exempt from K1 (content discarded); non-UTF-8 recording is a known finding", ref="§3 C05, Appendix C"),
  "C04": dict(cat="exploration", technique="runtime monitor: deterministic scheduler over the loader's futures and executor tasks (FIFO/LIFO/random/DFS enumeration) + hasher variation in fresh threads, canonical outcome equality",
    text="The real build runs under a hand-written single-threaded scheduler that gates every loader future (released one at a time, optionally after extra Pending polls) and treats tasks handed to the Executor as separate units; release orders are enumerated depth-first per world up to a budget (247 of 400 worlds exhaustively in quick) and sampled randomly; the same world is also rebuilt in fresh OS threads (fresh hasher keys). Every execution must equal the reference (default executor under tokio) in serialised graph, error entries with referrers, package tables, lockfile writes.",
    note="in-process variation only; loader answers fixed at call time", ref="§3 C04"),
